@@ -317,6 +317,20 @@ func (f *sourceFile) marshalSourceFile() (string, error) {
 	return string(jstr), nil
 }
 
+// isValidFileName reports whether name is a single path element: not empty, not "." or "..",
+// and without any path separator, so that joining it to a directory stays inside that directory.
+func isValidFileName(name string) bool {
+	if name == "" || name == "." || name == ".." {
+		return false
+	}
+	for i := 0; i < len(name); i++ {
+		if name[i] == '/' || os.IsPathSeparator(name[i]) {
+			return false
+		}
+	}
+	return true
+}
+
 func unmarshalSourceFile(source string) (*sourceFile, error) {
 	var file sourceFile
 	if err := json.Unmarshal([]byte(source), &file); err != nil {
@@ -324,6 +338,11 @@ func unmarshalSourceFile(source string) (*sourceFile, error) {
 	}
 	if len(file.RelPath) < 1 {
 		return nil, simpleTrzszError("Invalid source file: %s", source)
+	}
+	for _, name := range file.RelPath {
+		if !isValidFileName(name) {
+			return nil, simpleTrzszError("Invalid source file: %s", source)
+		}
 	}
 	return &file, nil
 }
